@@ -116,3 +116,26 @@ def blade_pair_plan(ctx, ops, dims=(3, 4, 5, 6, 7), n=None, params=None):
                     cases.append((op, [(b,) for b in c], params(rng, d, op) if params else []))
             groups.append({'u': u, 'opts': {}, 'cases': cases, 'revisit': 0.05})
     return groups
+
+
+def mirrored_wrapper_groups(ctx, ops, n=None):
+    """Binary operators on ONE algebra with a wrapper set (generated functions are then called by NAME through numspace): both
+    operands store the SAME blades, one of them permuted -- (K', K), then the mirrored pattern (K, K'), then (K', K') and
+    (K, K) -- and every case is visited again after all were generated.  A function name that does not identify the ordered
+    key tuple of EACH operand lets one pattern run the function of another."""
+    import patterns as P
+    from kdriver import ucfg
+    rng, q = ctx.rng, ctx.quick
+    groups = []
+    for d, sig in ((2, [1, 1]), (3, [1, 1, -1]), (3, [0, 1, 1])) + (() if q else ((2, [1, -1]), (4, [1, 1, 1, -1]))):
+        cases = []
+        for _ in range(n or (3 if q else 12)):
+            K = sorted(P.random_key_tuple(rng, d, 3, 2))
+            Kp = list(K)
+            while Kp == K:
+                rng.shuffle(Kp)
+            for op in ops:
+                for a, b in ((Kp, K), (K, Kp), (Kp, Kp), (K, K)):
+                    cases.append((op, [list(a), list(b)], []))
+        groups.append({'u': ucfg(sig=sig), 'opts': {'wrapper': True}, 'cases': cases, 'revisit': 1.0})
+    return groups
